@@ -100,6 +100,10 @@ def run(tier: str, seed: int) -> int:
             lines = [f'SB_CONFIG_SUIT_MPI_{c07.CONFIGURABLE[roles[0]]}_VENDOR_NAME="{v1}"', f'SB_CONFIG_SUIT_MPI_{c07.CONFIGURABLE[roles[0]]}_CLASS_NAME="{c1}"']
             if kind == "collision-roles":
                 lines += [f'SB_CONFIG_SUIT_MPI_{c07.CONFIGURABLE[roles[1]]}_VENDOR_NAME="{v1}"', f'SB_CONFIG_SUIT_MPI_{c07.CONFIGURABLE[roles[1]]}_CLASS_NAME="{c1}"']
+                # every other configurable role gets a pair of its own, so that the two colliding roles are not neighbours in any ordering
+                for other in c07.CONFIGURABLE:
+                    if other not in roles[:2] and other in slots and rng.random() < 0.8:
+                        lines += [f'SB_CONFIG_SUIT_MPI_{c07.CONFIGURABLE[other]}_VENDOR_NAME="other.example"', f'SB_CONFIG_SUIT_MPI_{c07.CONFIGURABLE[other]}_CLASS_NAME="cls_{other.lower()}"']
                 expect = "reject"
             elif kind == "collision-default":
                 dv, dc, drole = rng.choice([a for a in layout["assignments"] if a[2] != roles[0]])
@@ -113,6 +117,17 @@ def run(tier: str, seed: int) -> int:
             elif kind == "unquoted":
                 lines += ["CONFIG_A=y", "CONFIG_B=0x1F", "CONFIG_C=42", "CONFIG_D=plain", 'CONFIG_E=""']
             rng.shuffle(lines)
+            if kind != "missing-class" and rng.random() < 0.6:
+                # commented-out assignments are comments: an older value of the configured role after the active line, and a role that is not configured
+                r0 = c07.CONFIGURABLE[roles[0]]
+                lines += [f'# SB_CONFIG_SUIT_MPI_{r0}_VENDOR_NAME="old.example"', f'# SB_CONFIG_SUIT_MPI_{r0}_CLASS_NAME="old_class"',
+                          f'#SB_CONFIG_SUIT_MPI_{r0}_CLASS_NAME="older_class"', "# SB_CONFIG_SUIT_MPI_GENERATE is not set"]
+                free = [r for r in c07.CONFIGURABLE if r in slots and not any(c07.CONFIGURABLE[r] + "_" in ln for ln in lines)]
+                if free:
+                    rf = c07.CONFIGURABLE[rng.choice(free)]
+                    lines.insert(rng.randrange(0, len(lines)), f'# SB_CONFIG_SUIT_MPI_{rf}_VENDOR_NAME="ghost.example"')
+                    lines.insert(rng.randrange(0, len(lines)), f'# SB_CONFIG_SUIT_MPI_{rf}_CLASS_NAME="ghost_class"')
+                res.count("kconfig:with-commented-assignments")
             kconfig = "\n".join(lines) + "\n"
             b = c07.envelope_for(seed, 900000 + i, v1, c1, rng, d)
             if b is None:
